@@ -326,6 +326,11 @@ impl ServerState {
     /// this process until `is_compiling` becomes false.
     pub async fn wait_for_parsing(&self) {
         loop {
+            // Register for the notification before checking the flags, so that a notification
+            // sent between the check and the await is not lost.
+            let notified = self.finished_compilation.notified();
+            tokio::pin!(notified);
+            notified.as_mut().enable();
             // Check both the is_compiling flag and the last_compilation_state.
             // Wait if is_compiling is true or if the last_compilation_state is Uninitialized.
             #[cfg(fuellabs_sway_verif)]
@@ -344,7 +349,7 @@ impl ServerState {
             // We are still compiling, lets wait to be notified.
             #[cfg(fuellabs_sway_verif)]
             crate::verif::point("T:wp_wait");
-            self.finished_compilation.notified().await;
+            notified.await;
             #[cfg(fuellabs_sway_verif)]
             crate::verif::point("T:wp_woken");
         }
